@@ -15,12 +15,21 @@ var (
 	c10Shape = []string{"single", "grouped", "two-blocks"}
 	c10Pkg   = []string{"none", "matching", "non-matching", "rename-matching", "rename-non-matching"}
 	c10Pref  = []string{"context", "minus"}
+	// kind of the code pattern behind the guards: the guard has to hold for every kind, also when the two
+	// sides of the change are of different kinds (a single expression replaced by several statements)
+	c10Code = []string{"expr", "expr-to-stmts", "stmts", "decl"}
+	// package of the target file: "pk_test" is another package than "pk"
+	c10FPkg = []string{"pk", "pk_test"}
 )
 
-type c10Cell struct{ p, f, g2, shape, pkg, pref int }
+type c10Cell struct{ p, f, g2, shape, pkg, pref, code, fpkg int }
 
 func c10CellOf(i int) c10Cell {
 	var c c10Cell
+	c.fpkg = i % len(c10FPkg)
+	i /= len(c10FPkg)
+	c.code = i % len(c10Code)
+	i /= len(c10Code)
 	c.pref = i % len(c10Pref)
 	i /= len(c10Pref)
 	c.pkg = i % len(c10Pkg)
@@ -36,11 +45,11 @@ func c10CellOf(i int) c10Cell {
 }
 
 func c10Cells() int {
-	return len(c10P) * len(c10F) * len(c10G2) * len(c10Shape) * len(c10Pkg) * len(c10Pref)
+	return len(c10P) * len(c10F) * len(c10G2) * len(c10Shape) * len(c10Pkg) * len(c10Pref) * len(c10Code) * len(c10FPkg)
 }
 
 func (c c10Cell) String() string {
-	return fmt.Sprintf("patch=%s file=%s second=%s shape=%s package=%s prefix=%s", c10P[c.p], c10F[c.f], c10G2[c.g2], c10Shape[c.shape], c10Pkg[c.pkg], c10Pref[c.pref])
+	return fmt.Sprintf("patch=%s file=%s second=%s shape=%s package=%s prefix=%s code=%s file-package=%s", c10P[c.p], c10F[c.f], c10G2[c.g2], c10Shape[c.shape], c10Pkg[c.pkg], c10Pref[c.pref], c10Code[c.code], c10FPkg[c.fpkg])
 }
 
 // guard1Holds is the statement's table: unnamed matches only unnamed, a literal name only
@@ -114,6 +123,10 @@ func (c c10Cell) expected() bool {
 	switch c10Pkg[c.pkg] {
 	case "non-matching", "rename-non-matching":
 		ok = false
+	case "matching", "rename-matching":
+		if c10FPkg[c.fpkg] != "pk" {
+			ok = false // the patch says "package pk", the file is in pk_test
+		}
 	}
 	return ok
 }
@@ -172,7 +185,16 @@ func (c c10Cell) patch() string {
 	if c10G2[c.g2] != "none" {
 		imp("", c10Path2)
 	}
-	sb.WriteString("\n-target(1)\n+repl(1)\n")
+	switch c10Code[c.code] {
+	case "expr":
+		sb.WriteString("\n-target(1)\n+repl(1)\n")
+	case "expr-to-stmts":
+		sb.WriteString("\n-target(1)\n+repl(1)\n+more(2)\n")
+	case "stmts":
+		sb.WriteString("\n-tv := target(1)\n+tv := repl(1)\n")
+	case "decl":
+		sb.WriteString("\n-var tgtVar = target(1)\n+var tgtVar = repl(1)\n")
+	}
 	return sb.String()
 }
 
@@ -226,7 +248,7 @@ func (c c10Cell) file() string {
 		add("", "example.com/lib/unrelated")
 	}
 	var sb strings.Builder
-	sb.WriteString("package pk\n\n")
+	sb.WriteString("package " + c10FPkg[c.fpkg] + "\n\n")
 	if len(specs) > 0 {
 		switch c10Shape[c.shape] {
 		case "single":
@@ -253,7 +275,14 @@ func (c c10Cell) file() string {
 		}
 		sb.WriteString("\n")
 	}
-	sb.WriteString("func f() {\n\ttarget(1)\n")
+	switch c10Code[c.code] {
+	case "expr", "expr-to-stmts":
+		sb.WriteString("func f() {\n\ttarget(1)\n")
+	case "stmts":
+		sb.WriteString("func f() {\n\ttv := target(1)\n")
+	case "decl":
+		sb.WriteString("var tgtVar = target(1)\n\nfunc f() {\n")
+	}
 	for _, u := range uses {
 		sb.WriteString("\t" + u + "\n")
 	}
@@ -267,13 +296,13 @@ func init() {
 	core.Register(&core.Prop{
 		ID:    "C10",
 		Level: "exploration",
-		Rule: "exhaustive table of 7920 cells: patch-side import form {absent, unnamed, named n, named other, named like the last path element, metavariable-named, '.', '_'} x file-side form {no imports, other paths only, unnamed, same name, other name, named like the last path element, '.', '_', " +
+		Rule: "exhaustive table of 63360 cells: patch-side import form {absent, unnamed, named n, named other, named like the last path element, metavariable-named, '.', '_'} x file-side form {no imports, other paths only, unnamed, same name, other name, named like the last path element, '.', '_', " +
 			"same path twice under two names (both orders), unnamed+named} x second guard import {none, holds, fails} x import block shape {single, grouped, two blocks} x package clause {none, matching, non-matching, rename of matching, rename of non-matching} " +
-			"x guard line prefix {context, '-'}; every cell on a file in which the code pattern occurs; library API for all cells, CLI for every 8th batch. Oracle: the change applies iff every guard holds per the statement's table. " +
+			"x guard line prefix {context, '-'} x kind of the code pattern {expression, expression replaced by several statements, statement, declaration} x package of the file {pk, pk_test}; when the change applies the package clause must be the file's own (or the renamed one); every cell on a file in which the code pattern occurs; library API for all cells, CLI for every 8th batch. Oracle: the change applies iff every guard holds per the statement's table. " +
 			"Every cell is non-trivial and distinct (one configuration each).",
 		Assumptions: []string{"'in the stated form' for a path imported twice: the guard holds if any of the specs has the stated form", "a file without imports cannot hold a second guard: such cells expect 'not applied'"},
 		Cases:       func(string) int { return (c10Cells() + c10Batch - 1) / c10Batch },
-		Floor:       func(string) int { return c10Cells() - 600 },
+		Floor:       func(string) int { return c10Cells() - 5000 },
 		Exhaustive:  func(string) bool { return true },
 		Run:         runC10,
 	})
@@ -323,6 +352,15 @@ func runC10(ctx *core.Ctx, idx int) *core.Result {
 				cls = "guard-fails-but-applied"
 			case !exp && run.Out != src:
 				cls = "guard-fails-but-file-changed"
+			}
+			if cls == "" && applied {
+				wantPkg := c10FPkg[c.fpkg]
+				if c10Pkg[c.pkg] == "rename-matching" {
+					wantPkg = "pk2"
+				}
+				if !strings.HasPrefix(run.Out, "package "+wantPkg+"\n") {
+					cls = "package-clause-wrong-after-apply"
+				}
 			}
 			if cls != "" {
 				if strings.HasPrefix(c10F[c.f], "twice") {
